@@ -13,10 +13,10 @@ import (
 
 func c14Layouts(thorough bool) []gen.Layout {
 	pads := []string{"", " ", "   ", "\t", "GLUE"}
-	nls := []string{"\n", "\r\n", "\r"}
+	nls := []string{"\n", "\r\n", "\r", "mix0", "mix1"} // mixN: every line break in its own style, in rotation
 	blanks := []int{0, 2}
 	anns := []string{"inline", "multi", "multi-broken", "multi-broken-colon"}
-	quotes := []int{0, 1, 2} // bare, quoted, quoted with an escaped letter
+	quotes := []int{0, 1, 2, 3} // bare, quoted, quoted with an escaped letter, bare with escaped type names in the values
 	comments := []string{"", "eol", "own-line", "block", "eol-bare", "own-line-bare"}
 	var out []gen.Layout
 	for pi, p := range pads {
@@ -34,7 +34,7 @@ func c14Layouts(thorough bool) []gen.Layout {
 							if dev == 0 || (!thorough && dev > 2) {
 								continue
 							}
-							l := gen.Layout{Pad: p, NL: n, LeadBlank: b, TrailBlank: b, Ann: a, QuoteNames: q > 0, EscNames: q == 2, Comments: c, Indent: "\t"}
+							l := gen.Layout{Pad: p, NL: n, LeadBlank: b, TrailBlank: b, Ann: a, QuoteNames: q == 1 || q == 2, EscNames: q == 2, EscValues: q == 3, Comments: c, Indent: "\t"}
 							if p == "GLUE" {
 								l.Pad, l.Glue = "", true
 							}
